@@ -60,6 +60,10 @@ def cases(tier, seed):
         if i % 7 == 1:      # file numbers of five and six digits at one level
             g["file_id_base"] = "mixed"
         cs.append(c)
+    # scale: 64**3 boxes (every cooked box is larger than 4 MiB)
+    for k in range(1 if tier == "quick" else 3):
+        cs.append({"kind": "user", "scale": "coarse64", "gen": dict(seed=seed * 19 + 1111 + k, names=["f0", "f1", "f2"], payload="random"),
+                   "sel_seed": seed * 37 + 1111 + k})
     for i in range(n_thermo):
         g = dict(seed=rng.randrange(10 ** 9), ndims=3, nlevels=1 + i % 2, bf=2, base_blocks=(2, 3),
                  maxsz=4, payload="thermo")
@@ -293,7 +297,11 @@ def run_case(case, work, rec):
     if case["kind"] == "thermo":
         sp = species()
         g["names"] = ["density", "temp"] + [f"Y({s})" for s in sp] + ["rhoh"]
-    m = gen.gen_model(**g)
+    if case.get("scale"):
+        m = gen.scale_model(case["scale"], **g)
+        rec.count("scale_cases")
+    else:
+        m = gen.gen_model(**g)
     path = os.path.join(work, "plt00020")
     gen.write_plotfile(m, path, ref_ratio_extra=rng.choice([0, 0, 1, 3]), trailing_blank=rng.random() < 0.7,
                        close_blank=rng.random() < 0.3, floatfmt=rng.choice(["repr", "17g"]),
@@ -315,7 +323,8 @@ def run_case(case, work, rec):
         for kind in ("user2", "user2multi"):
             if kind == "user2multi" and "f1" not in names:
                 continue
-            for kept in (None, names[-1], " ".join(reversed(names[:2])), "nope " + names[0] + " zz"):
+            for kept in ((None, names[-1]) if case.get("scale") else
+                         (None, names[-1], " ".join(reversed(names[:2])), "nope " + names[0] + " zz")):
                 configs.append((kind, kept, None, None))
     else:
         sp = species()
